@@ -484,6 +484,7 @@ func check(bin, dir, prop, tier string, base uint64, workers int, scale float64,
 		fmt.Printf("%s/%s: runs=%d nontrivial=%d distinct=%d steps=%d sim=%.0fs wall=%.1fs aborts=%v failures=%d\n", prop, fr.desc.Name,
 			fr.agg.Runs, fr.agg.Nontrivial, fr.distinct(), fr.agg.Steps, float64(fr.agg.SimNs)/1e9, fr.wall, fr.agg.Aborts, len(fr.failures))
 		fmt.Printf("  probes=%v faults=%v\n", fr.agg.Probes, fr.agg.Faults)
+		os.Remove(filepath.Join(verifDir, ".build", "failures-"+prop+"-"+fr.desc.Name+".txt"))
 		if len(fr.failures) > 0 {
 			cl := map[string]int{}
 			for _, f := range fr.failures {
